@@ -330,16 +330,21 @@ impl<'dbg> FatDieRef<'dbg, Function> {
         pc: GlobalAddress,
         needle: &str,
     ) -> Option<FatDieRef<'dbg, Variable>> {
-        weak_error!(self.deref())?.for_each_children_recursive_t(|child| {
+        let mut result = None;
+
+        // children are visited breadth-first, a shadowing variable lives in a nested lexical
+        // block, so the last valid match is the innermost binding of the name
+        weak_error!(self.deref())?.for_each_children_recursive(|child| {
             if child.tag() == gimli::DW_TAG_variable {
                 let var_ref = FatDieRef::new_var(self.debug_info, self.unit_idx, child.offset());
 
                 if child.name().as_deref() == Some(needle) && var_ref.valid_at(pc) {
-                    return Some(var_ref);
+                    result = Some(var_ref);
                 }
             }
-            None
-        })
+        });
+
+        result
     }
 
     pub fn parameters(&self) -> Vec<FatDieRef<'dbg, Argument>> {
